@@ -69,6 +69,8 @@ def drive(ctx):
             w[1:3] = rnd.choice(((12, 31), (1, 1), (2, 28), (3, 1), (10, 31)))
         if k % 7 == 0:
             w[0] = rnd.choice((1900, 1999, 2000, 2001, 2009, 2010, 2100, 2400))
+            if w[1:3] == [2, 29]:
+                w[2] = 28
         zr = (UTCZ, NAIVE, {"n": "", "fo": rnd.randrange(-86399, 86400)})[k % 3]
         u = UNITS[k % 9]
         for opn in ("start_of", "end_of"):
